@@ -58,12 +58,15 @@ def gen_cfg(rng):
         if rng.random() < 0.04:
             v = rng.choice(ERR_TEMPLATES)     # the whole expansion fails
         pairs.append((k, v))
+    if rng.random() < 0.35:
+        # the same settings written into a configuration file and read by the real loader (no Ed25519 CA there)
+        return ("cfgfile", dn, host or "km-file", realm, 0, pairs)
     return ("cfg", dn, host, realm, ed, pairs)
 
 
 def cfg_line(o):
     _, dn, host, realm, ed, pairs = o
-    f = ["cfg", str(dn), c.hexs(host), "~" if realm is None else c.hexs(realm), str(ed), str(len(pairs))]
+    f = [o[0], str(dn), c.hexs(host), "~" if realm is None else c.hexs(realm), str(ed), str(len(pairs))]
     for k, v in pairs:
         f += [c.hexs(k), c.hexs(v)]
     return " ".join(f)
@@ -85,6 +88,15 @@ def gen_ops(rng, n_cert, n_expand):
     for ty in ("ssh", "x509", "k8s"):
         for k in KINDS:
             ops.append(("cert", ty, "basic", "Alice", 1, "Alice", k, 1))
+    # a configuration FILE with the documented placeholders, loaded by the real loader while the daemon's
+    # environment has USERNAME/USER/OTHER/… set: the placeholder must still name the requesting user
+    for dn in (0, 1):
+        ops.append(("cfgfile", dn, "km-file", None, 0, [("login@example.com", "$USERNAME"), ("home", "/home/${USERNAME}"),
+                                                        ("ext-$USERNAME", "$OTHER"), ("${USERNAME}", "u=$USER;n=$NOPE"), ("permit-pty", "")]))
+        for typed, mode in (("alice", "basic"), ("Bob.Smith", "login"), ("carol+x", "cookie"), ("daemonacct", "basic")):
+            norm = typed if (dn or mode == "cookie") else typed.lower()
+            ops.append(("cert", "ssh", mode, typed, 1, norm, "rsa2048", 0))
+            ops.append(("cert", "x509", mode, typed, 1, norm, "p256", 0))
     ncert = sum(1 for o in ops if o[0] == "cert")
     cur_dn = 1
     while ncert < n_cert:
@@ -126,7 +138,7 @@ def gen_ops(rng, n_cert, n_expand):
 
 
 def op_line(o):
-    if o[0] == "cfg":
+    if o[0] in ("cfg", "cfgfile"):
         return cfg_line(o)
     if o[0] == "expand":
         return "expand %s %s" % (c.hexs(o[1]), c.hexs(o[2]))
@@ -149,7 +161,7 @@ def run(ctx):
             r = v.get("replay", {})
             if "cfg" in r and "op" in r:
                 cfg = r["cfg"]
-                rops.append(("cfg", cfg[1], cfg[2], cfg[3], cfg[4], [tuple(p) for p in cfg[5]]))
+                rops.append((cfg[0], cfg[1], cfg[2], cfg[3], cfg[4], [tuple(p) for p in cfg[5]]))
                 rops.append(tuple(r["op"]))
         ops = rops or ops[:200]
     lines = [op_line(o) for o in ops]
@@ -163,7 +175,7 @@ def run(ctx):
     # judge every answer to a cert request
     jops, jidx = [], []
     for i, (o, l) in enumerate(zip(ops, impl)):
-        if o[0] == "cfg":
+        if o[0] in ("cfg", "cfgfile"):
             jops.append(lines[i])
         elif o[0] == "cert":
             jops.append(lines[i] + " | " + l)
@@ -177,7 +189,7 @@ def run(ctx):
     ncfg = 0
     for i, v in zip(jidx, verdicts):
         o = ops[i]
-        if o[0] == "cfg":
+        if o[0] in ("cfg", "cfgfile"):
             cur_cfg = o
             ncfg += 1
             if v != "ok":
